@@ -12,6 +12,7 @@
 package main
 
 import (
+	"bytes"
 	"crypto/sha256"
 	"crypto/sha512"
 	"crypto/x509"
@@ -25,6 +26,7 @@ import (
 	"sort"
 	"strconv"
 	"strings"
+	"syscall"
 	"time"
 
 	intoto "github.com/in-toto/in-toto-golang/in_toto"
@@ -77,6 +79,7 @@ type Scn struct {
 	CertUnsorted bool            `json:"cert_unsorted,omitempty"` // c10: the certificate constraint lists several values in non-sorted order
 	LineNorm   bool              `json:"line_norm,omitempty"`   // verification (and the recording functionaries) normalise line endings
 	BigFile    int               `json:"big_file,omitempty"`    // size of an additional source file src/big.bin (generated, not stored)
+	CallerInter bool             `json:"caller_inter,omitempty"` // c10: the caller hands over intermediate certificates as a slice with spare capacity
 	RelPaths   bool              `json:"rel_paths,omitempty"`  // c10: link and run directory are handed over as RELATIVE paths (histories through InTotoVerifyWithDirectory)
 	Env        map[string]string `json:"env,omitempty"`        // environment the scenario ran under (time zone), for the replay
 	ExpectSummary string         `json:"expect_summary,omitempty"` // filled by materialise: the summary link an accepted verification must return
@@ -261,6 +264,13 @@ func buildLayout(sc *Scn, runDirPrefix string) intoto.Layout {
 		return intoto.Key{KeyID: sha("ca entry " + cert + public), KeyIDHashAlgorithms: []string{"sha256", "sha512"}, KeyType: "rsa", Scheme: "rsassa-pss-sha256",
 			KeyVal: intoto.KeyVal{Certificate: cert, Public: public}}
 	}
+	if sc.CallerInter {
+		root := lib.NewCA("verif-root", nil, lib.CertOpts{})
+		inter := lib.NewCA("verif-layout-inter", root, lib.CertOpts{})
+		l.RootCas = map[string]intoto.Key{root.Key.KeyID: root.Key}
+		l.IntermediateCas = map[string]intoto.Key{inter.Key.KeyID: inter.Key}
+		callerInterBacking = [][]byte{lib.NewCA("verif-caller-inter", root, lib.CertOpts{}).PEM, []byte("the caller's own data behind the slice it passed")}
+	}
 	switch sc.Defect {
 	case "ca-root-unparsable":
 		k := caKey("-----BEGIN CERTIFICATE-----\nQUJDREVGR0g=\n-----END CERTIFICATE-----\n", "")
@@ -357,6 +367,9 @@ func inspCommand(in InspSpec) []string {
 	case "rewrite":
 		// same size, same mtime, other content
 		return []string{"sh", "-c", "echo '" + in.Name + "' >> " + logPath + "; printf BBBB > " + in.Arg + " && touch -d @1577836800 " + in.Arg}
+	case "killed":
+		// the command records that it ran and is then killed by a signal (no exit status of its own)
+		return []string{"sh", "-c", "echo '" + in.Name + "' >> " + logPath + "; kill -9 $$"}
 	case "relscript":
 		return []string{"scripts/check.sh"}
 	case "gate":
@@ -655,7 +668,7 @@ func fourLinks(sc *Scn, i int) {
 var defects = map[string][]string{
 	"c01": {"none", "none", "alter-expires", "alter-readme", "alter-threshold", "alter-rule", "alter-command", "alter-insp-run", "alter-keys",
 		"alter-pubkeys", "drop-signature", "corrupt-signature", "dup-signature", "reorder-signatures", "forged-keyid", "extra-foreign-signature",
-		"verifier-plus-one", "verifier-minus-one", "verifier-empty", "signed-by-others", "link-instead-of-layout",
+		"verifier-plus-one", "verifier-minus-one", "verifier-empty", "verifier-nil-map", "signed-by-others", "link-instead-of-layout",
 		"alter-step-unknown-member", "alter-step-drop-threshold", "alter-inspection-unknown-member", "alter-key-unknown-member",
 		"alter-dsse-payload-type-case", "alter-dsse-payload-type-params", "alter-signed-repeated-keys-member", "alter-signed-repeated-readme-member",
 		"ca-root-pem-public-key-as-certificate", "ca-root-unparsable", "ca-root-public-key-only", "ca-intermediate-unparsable", "ca-root-valid-unused",
@@ -672,10 +685,10 @@ var defects = map[string][]string{
 		"threshold1-disagree-large-link", "permissive-threshold1-foreign-signature-entry-0", "permissive-threshold1-foreign-signature-entry-1",
 		"permissive-three-links-one-disagrees-0", "permissive-three-links-one-disagrees-1", "permissive-three-links-one-disagrees-2"},
 	"c06": {"sub-expired", "sub-undated", "sub-rfc3339-offset", "none", "expired-long", "expired-2s", "future-1h", "garbage", "empty", "rfc3339-offset", "date-only", "year-9999", "fraction", "lowercase"},
-	"c08": {"sub-same-step-name-upper-link-missing", "sub-same-step-name-both-present", "sub-wide-9", "sub-defective-beside-good-link-large", "sub-insp-named-like-first-step", "sub-insp-named-like-last-step", "sub-defective-beside-good-link", "sub-ok", "sub-ok", "sub-badsig", "sub-expired", "sub-missing-link", "sub-rule-violation", "sub-unauthorised", "sub-nested", "sub-nested-defect", "sub-summary-mismatch", "sub-summary-mismatch-other-algorithm"},
+	"c08": {"sub-insp-killed-by-signal", "sub-same-step-name-upper-link-missing", "sub-same-step-name-both-present", "sub-wide-9", "sub-defective-beside-good-link-large", "sub-insp-named-like-first-step", "sub-insp-named-like-last-step", "sub-defective-beside-good-link", "sub-ok", "sub-ok", "sub-badsig", "sub-expired", "sub-missing-link", "sub-rule-violation", "sub-unauthorised", "sub-nested", "sub-nested-defect", "sub-summary-mismatch", "sub-summary-mismatch-other-algorithm"},
 	"c10": {"history-same-params", "history-diff-params", "history-no-params", "history-mixed", "mixed-cert-key", "mixed-cert-key", "mixed-cert-key-unsorted", "summary-byproducts", "direct-unclean",
-		"history-empty-command-argument", "history-dir-relative-inspection-fails-midway", "mixed-cert-key-dir", "history-layout-keys-share-short-id", "history-four-links-two-groups", "history-dir-inspection-relative-command", "history-multi-alg", "history-multi-alg-mismatch", "history-whitespace-rule", "history-param-value-has-marker", "mixed-cert-key-marker-constraint", "history-threshold-zero"},
-	"c09": {"unclean-disallow-pattern-product-added", "star-class-pattern-product-added", "dangling-symlink-added", "step-rule-fails-no-inspection-may-run", "symlinked-dir-before-tampered-product", "symlinked-dir-untouched", "product-crlf-rewritten", "product-crlf-rewritten-normalised", "large-product-tampered-tail", "large-product-untouched", "product-added-ignorable-name-0", "product-added-ignorable-name-1", "product-added-ignorable-name-2", "product-added-ignorable-name-3",
+		"history-empty-command-argument", "history-dir-relative-inspection-fails-midway", "mixed-cert-key-dir", "history-layout-keys-share-short-id", "history-four-links-two-groups", "history-dir-inspection-relative-command", "history-caller-intermediates-spare-capacity", "history-multi-alg", "history-multi-alg-mismatch", "history-whitespace-rule", "history-param-value-has-marker", "mixed-cert-key-marker-constraint", "history-threshold-zero"},
+	"c09": {"insp-killed-by-signal", "socket-file-added", "unclean-disallow-pattern-product-added", "star-class-pattern-product-added", "dangling-symlink-added", "step-rule-fails-no-inspection-may-run", "symlinked-dir-before-tampered-product", "symlinked-dir-untouched", "product-crlf-rewritten", "product-crlf-rewritten-normalised", "large-product-tampered-tail", "large-product-untouched", "product-added-ignorable-name-0", "product-added-ignorable-name-1", "product-added-ignorable-name-2", "product-added-ignorable-name-3",
 		"product-added-ignorable-name-4", "product-added-ignorable-name-5", "product-added-ignorable-name-6", "product-added-ignorable-name-7",
 		"product-added-ignorable-name-8", "product-added-ignorable-name-9", "product-added-ignorable-name-10", "case-variant-rule-earlier", "product-modified-backslash-decoy", "sha512-chain-product-modified", "escaped-pattern-product-modified", "escaped-pattern-none", "insp-rewrite-same-mtime", "product-all-removed", "require-after-consume", "none", "insp-fail", "insp-fail-255", "insp-missing", "insp-empty", "product-modified", "product-added", "product-removed",
 		"insp-touch-allowed", "insp-touch-disallowed", "three-inspections", "second-fails"},
@@ -787,7 +800,8 @@ func genScenario(r *lib.Rng, focus string, idx int) *Scn {
 				}
 			}
 			sc.Expect = "reject"
-		case "verifier-empty":
+		case "verifier-empty", "verifier-nil-map":
+			// no layout key at all: an empty map, or the nil map a caller gets from a declared-but-never-filled variable
 			sc.Verifiers = nil
 			sc.Expect = "reject"
 		case "signed-by-others":
@@ -1095,6 +1109,10 @@ func genScenario(r *lib.Rng, focus string, idx int) *Scn {
 		case "sub-expired":
 			sub.Expires = "2001-01-01T00:00:00Z"
 			sc.Expect = "reject"
+		case "sub-insp-killed-by-signal":
+			// the sublayout's own inspection dies from a signal: the sublayout fails, and with it the whole verification
+			sub.Insps = []InspSpec{{Name: "subinsp", Kind: "killed"}}
+			sc.Expect = "reject"
 		case "sub-summary-mismatch-other-algorithm":
 			// like sub-summary-mismatch, and the sublayout's functionaries recorded sha512 digests only while the parent's
 			// links (and inspections) carry sha256: artifacts without a common digest are never "the same artifact"
@@ -1184,6 +1202,13 @@ func genScenario(r *lib.Rng, focus string, idx int) *Scn {
 			sc.Steps[0].Threshold = 1
 			sc.Reps = 40
 			sc.History = []map[string]string{nil, nil}
+		case "history-caller-intermediates-spare-capacity":
+			// the layout lists a root and an intermediate CA of its own; the caller passes ONE more intermediate, as the
+			// front part of a longer array it keeps using: nothing behind the passed slice may be written
+			sc.Params = nil
+			sc.CallerInter = true
+			sc.History = []map[string]string{nil, nil, nil}
+			sc.Reps = 3
 		case "history-four-links-two-groups":
 			sc.Params = nil
 			fourLinks(sc, 0)
@@ -1259,6 +1284,16 @@ func genScenario(r *lib.Rng, focus string, idx int) *Scn {
 			if d == "symlinked-dir-before-tampered-product" {
 				sc.Expect = "reject"
 			}
+		case "insp-killed-by-signal":
+			// the inspection command dies from a signal: that is not "returned zero"
+			sc.Insps = []InspSpec{{Name: "insp0", Kind: "log"}, {Name: "insp1", Kind: "killed"}, {Name: "insp2", Kind: "log"}}
+			sc.Expect = "reject"
+		case "socket-file-added":
+			// a unix socket node was added to the final product: it is not a file whose content can be recorded, so the
+			// inspection fails - it must not be skipped silently
+			sc.Insps = []InspSpec{{Name: "insp0", Kind: "log"}}
+			sc.Entry = "plain"
+			sc.Expect = "reject"
 		case "unclean-disallow-pattern-product-added":
 			// the inspection's closing rule is written "DISALLOW ./*" (patterns are cleaned like paths: it means DISALLOW *)
 			sc.Insps = []InspSpec{{Name: "insp0", Kind: "log"}}
@@ -1478,6 +1513,9 @@ func materialise(sc *Scn, root string, r *lib.Rng) *world {
 	if overrideVerifierKeys != nil {
 		w.verifierKeys, overrideVerifierKeys = overrideVerifierKeys, nil
 	}
+	if sc.Defect == "verifier-nil-map" {
+		w.verifierKeys = nil
+	}
 	if strings.HasPrefix(sc.Defect, "verifier-key-malformed-") {
 		pub := pk("ed1").Pub
 		bad := intoto.Key{KeyID: malformedKeyID, KeyIDHashAlgorithms: pub.KeyIDHashAlgorithms, KeyType: pub.KeyType, Scheme: pub.Scheme,
@@ -1529,6 +1567,10 @@ func materialise(sc *Scn, root string, r *lib.Rng) *world {
 			os.Chmod(fp, 0o755)
 		}
 		os.Chtimes(fp, time.Unix(1577836800, 0), time.Unix(1577836800, 0)) // fixed mtime (as reproducible builds do)
+	}
+	if sc.Defect == "socket-file-added" {
+		must(syscall.Mknod(filepath.Join(w.prodDir, "cache.sock"), syscall.S_IFSOCK|0o644, 0))
+		w.unreadable = append(w.unreadable, "cache.sock")
 	}
 	if sc.Defect == "dangling-symlink-added" {
 		must(os.Symlink(filepath.Join(root, "no-such-target.so"), filepath.Join(w.prodDir, "plugin.so")))
@@ -2240,16 +2282,20 @@ func runHistory(sc *Scn, w *world) (out string) {
 			linkArg = "links"
 		}
 	}
+	var inter [][]byte
+	if sc.CallerInter {
+		inter = callerInterBacking[:1] // len 1, cap 2
+	}
 	verify := func(m intoto.Metadata, params map[string]string) (intoto.Metadata, error) {
 		if sc.Entry == "dir" {
-			return intoto.InTotoVerifyWithDirectory(m, keys, linkArg, w.runDirArg, "summary-name", params, nil, false)
+			return intoto.InTotoVerifyWithDirectory(m, keys, linkArg, w.runDirArg, "summary-name", params, inter, false)
 		}
-		return intoto.InTotoVerify(m, keys, linkArg, "summary-name", params, nil, false)
+		return intoto.InTotoVerify(m, keys, linkArg, "summary-name", params, inter, false)
 	}
 	var parts []string
 	flags := ""
 	for _, params := range sc.History {
-		before := snapshot(lm, keys, params)
+		before := snapshot(lm, keys, params) + string(bytes.Join(callerInterBacking, []byte{0}))
 		first := ""
 		firstFull := ""
 		for rep := 0; rep < sc.Reps; rep++ {
@@ -2276,7 +2322,7 @@ func runHistory(sc *Scn, w *world) (out string) {
 			} else if full != firstFull && !strings.Contains(flags, "NONDETERMINISTIC-SUMMARY") {
 				flags += " NONDETERMINISTIC-SUMMARY(by-products/command of the summary link differ between identical runs)"
 			}
-			if snapshot(lm, keys, params) != before && !strings.Contains(flags, "MUTATED") {
+			if snapshot(lm, keys, params)+string(bytes.Join(callerInterBacking, []byte{0})) != before && !strings.Contains(flags, "MUTATED") {
 				flags += " MUTATED(caller's layout/keys/parameters changed by verification)"
 			}
 		}
@@ -2628,6 +2674,10 @@ func coqModelAt(sc *Scn, w *world, params map[string]string, nowNs int64) string
 				cmds = append(cmds, lib.CoqPair(lib.CoqStrList(inspCommand(in)), "CLog"))
 				continue
 			}
+			if in.Kind == "killed" {
+				cmds = append(cmds, lib.CoqPair(lib.CoqStrList(inspCommand(in)), "(CFail (-1)%Z)"))
+				continue
+			}
 			kind := map[string]string{"log": "CLog", "rewrite": "(CTouch " + lib.CoqStr(in.Arg) + " " + lib.CoqStr(sha("BBBB")) + ")", "touch": "(CTouch " + lib.CoqStr(in.Arg) + " " + lib.CoqStr(sha("x\n")) + ")", "fail": "(CFail " + in.Arg + "%Z)", "missing": "CMissing", "empty": "CLog"}[in.Kind]
 			cmds = append(cmds, lib.CoqPair(lib.CoqStrList(inspCommand(in)), kind))
 		}
@@ -2781,7 +2831,8 @@ func main() {
 			done1 := time.Now()
 			cleanInspectionLinks(w)
 			m1 := coqModelAt(sc, w, sc.Params, t1.UnixNano())
-			time.Sleep(time.Until(exp.Add(1500 * time.Millisecond)))
+			// ... and again a fraction of a second after the expiry (within the same clock second)
+			time.Sleep(time.Until(exp.Add(120 * time.Millisecond)))
 			t2 := time.Now()
 			o2 := runImpl(sc, w)
 			cleanInspectionLinks(w)
@@ -2933,6 +2984,8 @@ func collisionFirstUse(sc *Scn, rr *lib.Rng, work, focus, wrapper, order string)
 }
 
 const malformedKeyID = "0badc0de0badc0de0badc0de0badc0de0badc0de0badc0de0badc0de0badc0de"
+
+var callerInterBacking [][]byte // c10: the caller's array of intermediates (element 0 is passed, element 1 is not)
 
 var overrideVerifierKeys map[string]intoto.Key // set by a layout defect that needs a hand-made verifier key object
 
